@@ -166,7 +166,8 @@ let do_ledger nw toks =
   (try
      Stdlib.List.iter (fun tok ->
          let f = Array.of_list (String.split_on_char ',' tok) in
-         let w = int_of_string f.(0) and kind = f.(1) in
+         (* rank r of the current epoch is worker base + r of the model *)
+         let w = ino (!st).base + int_of_string f.(0) and kind = f.(1) in
          let a i = int_of_string f.(i) in
          let s = a (Array.length f - 1) in
          (try
@@ -179,6 +180,7 @@ let do_ledger nw toks =
                        apply w (EAllocStack (ni (cls_of_request (a 2)))) "alloc.stack";
                        expect "stack handed out" (ino (thread t).t_stack) (a 3)
              | "at" -> sync w s
+             | "epoch" -> apply w (EEpoch (ni (a 2))) "myth_fini + myth_init_ex"
              | "start" -> sync w s;
                           (match (wk w).w_cur with
                            | Some t -> expect "thread starting (record)" (ino (thread (ino t)).t_desc) (a 2)
